@@ -3,6 +3,7 @@ package sim
 import (
 	"context"
 	"fmt"
+	"strings"
 
 	kruiseappsv1alpha1 "github.com/openkruise/kruise-api/apps/v1alpha1"
 	rolloutsv1beta1 "github.com/openkruise/rollouts/api/v1beta1"
@@ -26,20 +27,22 @@ type StepSpec struct {
 
 // Scenario is data: workload kind/style × traffic provider × plan × enabled deviations.
 type Scenario struct {
-	ID        string
-	Kind      string // CloneSet, Deployment, StatefulSet, AdvancedStatefulSet, DaemonSet
-	Style     string // partition, canary, bluegreen
-	Replicas  int32
-	Steps     []StepSpec
-	Traffic   string // "", ingress, gateway, custom
+	ID           string
+	Kind         string // CloneSet, Deployment, StatefulSet, AdvancedStatefulSet, DaemonSet
+	Style        string // partition, canary, bluegreen
+	Replicas     int32
+	Steps        []StepSpec
+	Traffic      string // "", ingress, gateway, custom
 	IngressClass string
-	Grace     int32
-	RolloutID bool
+	Grace        int32
+	RolloutID    bool
 	// StaleCanaryService pre-creates "<svc>-canary" selecting some long-gone revision (a leftover of an earlier,
 	// interrupted rollout): legal input the controllers must re-point before routing to it.
 	StaleCanaryService bool
 	// Recreate: the user's Deployment uses strategy Recreate
 	Recreate bool
+	// RollbackInBatch sets the rollouts.kruise.io/rollback-in-batch annotation on the Rollout
+	RollbackInBatch bool
 	// Deviation alphabet (user actions) enabled in this scenario.
 	Actions []string
 	NS      string
@@ -148,6 +151,28 @@ func (sc *Scenario) Build(w *World) error {
 				return err
 			}
 		}
+	case "StatefulSet":
+		st := &apps.StatefulSet{
+			ObjectMeta: metav1.ObjectMeta{Namespace: ns, Name: AppName, Labels: map[string]string{"app": AppName}},
+			Spec: apps.StatefulSetSpec{
+				Replicas:    utilpointer.Int32(sc.Replicas),
+				ServiceName: AppName,
+				Selector:    &metav1.LabelSelector{MatchLabels: map[string]string{"app": AppName}},
+				Template:    podTemplate("app:v1"),
+				UpdateStrategy: apps.StatefulSetUpdateStrategy{Type: apps.RollingUpdateStatefulSetStrategyType,
+					RollingUpdate: &apps.RollingUpdateStatefulSetStrategy{Partition: utilpointer.Int32(0)}},
+			},
+		}
+		if err := w.Raw.Create(ctx, st); err != nil {
+			return err
+		}
+		rev := RevisionOf(st.Name, &st.Spec.Template)
+		for i := 0; i < int(sc.Replicas); i++ {
+			if err := w.Raw.Create(ctx, NewPod(ns, fmt.Sprintf("%s-%d", st.Name, i), st.Spec.Template.Labels, rev, ownerRef(st, "StatefulSet", "apps/v1"), true)); err != nil {
+				return err
+			}
+		}
+		w.Env = append(w.Env, &StatefulSetEnv{NS: ns, STS: AppName})
 	default:
 		return fmt.Errorf("scenario kind %q not supported yet", sc.Kind)
 	}
@@ -204,11 +229,16 @@ func (sc *Scenario) Build(w *World) error {
 // Rollout builds the scenario's Rollout object.
 func (sc *Scenario) Rollout() *rolloutsv1beta1.Rollout {
 	ro := &rolloutsv1beta1.Rollout{ObjectMeta: metav1.ObjectMeta{Namespace: sc.ns(), Name: AppName}}
+	if sc.RollbackInBatch {
+		ro.Annotations = map[string]string{"rollouts.kruise.io/rollback-in-batch": "true"}
+	}
 	switch sc.Kind {
 	case "CloneSet":
 		ro.Spec.WorkloadRef = rolloutsv1beta1.ObjectRef{APIVersion: "apps.kruise.io/v1alpha1", Kind: "CloneSet", Name: AppName}
 	case "Deployment":
 		ro.Spec.WorkloadRef = rolloutsv1beta1.ObjectRef{APIVersion: "apps/v1", Kind: "Deployment", Name: AppName}
+	case "StatefulSet":
+		ro.Spec.WorkloadRef = rolloutsv1beta1.ObjectRef{APIVersion: "apps/v1", Kind: "StatefulSet", Name: AppName}
 	}
 	var trs []rolloutsv1beta1.TrafficRoutingRef
 	switch sc.Traffic {
@@ -241,6 +271,13 @@ func (w *World) UserSetImage(sc *Scenario, image string) error {
 		}
 		upd := old.DeepCopy()
 		upd.Spec.Template.Spec.Containers[0].Image = image
+		if sc.RolloutID {
+			// the user (or a PaaS) tags every release with a rollout-id; pods are then labelled per batch
+			if upd.Labels == nil {
+				upd.Labels = map[string]string{}
+			}
+			upd.Labels[rolloutsv1beta1.RolloutIDLabel] = "id-" + strings.TrimPrefix(image, "app:")
+		}
 		adm, err := w.AdmitWorkloadUpdate(old, upd)
 		if err != nil {
 			return err
@@ -253,6 +290,32 @@ func (w *World) UserSetImage(sc *Scenario, image string) error {
 		}
 		upd := old.DeepCopy()
 		upd.Spec.Template.Spec.Containers[0].Image = image
+		if sc.RolloutID {
+			// the user (or a PaaS) tags every release with a rollout-id; pods are then labelled per batch
+			if upd.Labels == nil {
+				upd.Labels = map[string]string{}
+			}
+			upd.Labels[rolloutsv1beta1.RolloutIDLabel] = "id-" + strings.TrimPrefix(image, "app:")
+		}
+		adm, err := w.AdmitWorkloadUpdate(old, upd)
+		if err != nil {
+			return err
+		}
+		return w.Raw.Update(ctx, adm)
+	case "StatefulSet":
+		old := &apps.StatefulSet{}
+		if !w.Get(old, sc.ns(), AppName) {
+			return fmt.Errorf("workload gone")
+		}
+		upd := old.DeepCopy()
+		upd.Spec.Template.Spec.Containers[0].Image = image
+		if sc.RolloutID {
+			// the user (or a PaaS) tags every release with a rollout-id; pods are then labelled per batch
+			if upd.Labels == nil {
+				upd.Labels = map[string]string{}
+			}
+			upd.Labels[rolloutsv1beta1.RolloutIDLabel] = "id-" + strings.TrimPrefix(image, "app:")
+		}
 		adm, err := w.AdmitWorkloadUpdate(old, upd)
 		if err != nil {
 			return err
